@@ -34,17 +34,21 @@ PROP = dict(
     trusted_base=[
         "tools/lockshape.go (go/ast): the lock-shape facts MM/Gen/Lock*.lean the atomic-step theorems are decided on; goroutine scheduling "
         "inside one critical section and sync.RWMutex itself are assumed, not modelled",
-        "MM/Model/C09.lean: strings.ToLower / TrimSpace / Index modelled on ASCII bytes (the generator stays below 0x80; Go's Unicode folding "
-        "outside that alphabet is not modelled)",
+        "strings.ToLower / strings.TrimSpace: model and theorems are parametric in them (structure Str); the ASCII behaviour is implemented in "
+        "Lean and T-diffed, for non-ASCII / ill-formed strings the generator states Go's own result in `oracle` lines which the harness "
+        "re-verifies against the standard library when the script runs",
         "the two maps of DomainTable are modelled as one map keyed by (wildcard?, lower-cased key)",
-        "sort.Slice modelled as the stable sort: exact for slices of <= 12 entries and for pairwise distinct metrics",
+        "sort.Slice is not stable: both sides print every run of equal metric sorted by text, a lookup answer is `anyof` over the first run "
+        "(covers slices of more than 12 entries with ties)",
         "routes are aged through a verif accessor that shifts LastUpdate (harness/exports/internal__routing/c09.go)",
     ],
     assumptions=[
         "each table method is one atomic step: tied to the source by the *_atomic_steps theorems (one lock acquisition per method, route map "
         "touched only under the write lock in mutators, read under R/W in lookups) and exercised by the `race` stress op (goroutines released at "
         "once, up to 400 attempts per op, outcome must be a well-formed table equal to the result of some serial order)",
-        "domain names and forward keys are ASCII",
+        "'case-insensitively' is read as 'equal after strings.ToLower' (what the code does): this is not Unicode case-folding equality "
+        "(strings.EqualFold) - e.g. long s / final sigma do not match their capitals, dotted capital I matches i - and every ill-formed UTF-8 "
+        "byte folds to U+FFFD, so distinct ill-formed names share a key (observed on the real code; not counted as a violation)",
         "`Matches` reads IsWildcard / BaseDomain as stored (the table trusts its caller for them, as DomainTable.AddRoute does)",
     ],
     manifest=dict(
